@@ -200,6 +200,11 @@ def gen_program(rng: random.Random, tier: str = "quick") -> dict:
     # every label that an operation is projected to is defined by the user (the property's premise)
     mesh_calls.append(["geometry", {l: ["type searchableSphere", "centre (0 0 0)", "radius 1"] for l in labels}])
     rng.shuffle(mesh_calls)
+    if rng.random() < 0.3:
+        # the same patch modified twice: options given, then replaced by none / kept (settings=None)
+        nm = rng.choice(names)
+        mesh_calls.append(["modify", nm, "cyclic", ["neighbourPatch " + rng.choice(names), "transform none"]])
+        mesh_calls.append(["modify", nm, rng.choice(["wall", "patch"]), rng.choice([[], [], None, ["inGroups (x)"]])])
     cut = rng.randint(0, len(mesh_calls)) if rng.random() < 0.35 else len(mesh_calls)
     # deletions: (entity index, operation index inside the entity)
     deletions = []
@@ -514,13 +519,26 @@ class C06(core.Check):
     )
 
     def gen_cases(self, rng: random.Random, tier: str) -> List[dict]:
-        n = 90 if tier == "quick" else 2500
-        return [gen_program(rng, tier) for _ in range(n)]
+        n = 90 if tier == "quick" else 1500
+        cases = [gen_program(rng, tier) for _ in range(n)]
+        # malformed stream: ill-formed requests must be answered `bad-op`, unbalanced files `noparse`
+        cases += [
+            {"kind": "protocol", "req": "c06.render 0 0 0 0", "want": "bad-op"},
+            {"kind": "protocol", "req": "c06.render 1 =scale 1 =( 0 0 0 0 ! 0 0 0", "want": "bad-op"},
+            {"kind": "protocol", "req": "c06.render 0 0 0 0 0 ! 0 0 0 extra", "want": "bad-op"},
+            {"kind": "protocol", "req": "c06.vtk x", "want": "bad-op"},
+            {"kind": "protocol", "req": "c06.nothing", "want": "bad-op"},
+            {"kind": "protocol", "req": "c06.parse vertices ( ( 0 0 0 ) ;", "want": "noparse"},
+            {"kind": "protocol", "req": "c06.parse FoamFile { } //c vertices ( ) ; blocks ( ) ;", "want": "noparse"},
+        ]
+        return cases
 
     # ------------------------------------------------------------------ implementation
     def run_impl(self, case: dict) -> Any:
         import classy_blocks as cb
 
+        if case["kind"] == "protocol":
+            return {"protocol": True}
         with warnings.catch_warnings():
             warnings.simplefilter("ignore")
             mesh, ents, apply = build(case)
@@ -559,6 +577,8 @@ class C06(core.Check):
 
     # ------------------------------------------------------------------ model
     def requests(self, case: dict, impl: Any) -> List[str]:
+        if case["kind"] == "protocol":
+            return [case["req"]]
         if "error" in impl:
             return []
         w = " ".join(impl["words"])
@@ -568,6 +588,8 @@ class C06(core.Check):
         return reqs
 
     def compare(self, case: dict, impl: Any, model: List[str]) -> Optional[str]:
+        if case["kind"] == "protocol":
+            return None if model[0] == case["want"] else f"request {case['req']!r}: answer {model[0][:80]!r}, expected {case['want']}"
         m = re.fullmatch(r"ok idx=(\d) geom=(\d) quads=(\d) rt=(\d) T ?(.*)", model[0])
         if not m:
             return "model: " + model[0][:200]
@@ -603,11 +625,25 @@ class C06(core.Check):
 
     # ------------------------------------------------------------------ oracle: the property on the file itself
     def oracle(self, case: dict, impl: Any) -> List[dict]:
+        try:
+            return self._oracle(case, impl)
+        finally:
+            # the observation is kept as a sample in the evidence file: drop the bulky parts (they were used above)
+            if isinstance(impl, dict):
+                for k in ("words", "tokens", "vtk", "vpos"):
+                    if isinstance(impl.get(k), list):
+                        impl[k] = f"<{len(impl[k])} items>"
+                if isinstance(impl.get("decl"), dict):
+                    impl["decl"] = {"entities": [{"cls": e["cls"], "ops": len(e["ops"]), "geometry": sorted(e["geometry"])} for e in impl["decl"]["entities"]]}
+
+    def _oracle(self, case: dict, impl: Any) -> List[dict]:
         out: List[dict] = []
 
         def bad(site, what, **kw):
             out.append({"site": site, "what": what, **kw})
 
+        if case["kind"] == "protocol":
+            return out
         if "error" in impl:
             bad("Mesh.write:raises", impl["error"])
             return out
@@ -991,11 +1027,13 @@ class C06(core.Check):
         return out
 
     def nontrivial_key(self, case, impl):
-        if not isinstance(impl, dict) or "decl" not in impl:
+        if case["kind"] == "protocol" or not isinstance(impl, dict) or "decl" not in impl:
             return None
         return json.dumps([impl["decl"], case["before"], case["after"]], sort_keys=True, default=str)
 
     def classify(self, case, impl):
+        if case["kind"] == "protocol":
+            return "protocol:malformed-request"
         kinds = sorted({e["t"] for e in case["entities"]})
         flags = []
         if case["explicit_assemble"]:
